@@ -184,7 +184,7 @@ func c20DecisionTable(c *Check, a *Anchors) {
 			}
 		}
 		// offline
-		if p.Asg["field:Reader.offline"] {
+		if fieldAsg(p.Asg, "offline") {
 			nOffline++
 			if p.HasEvent("fetch", "call") {
 				badOffline = append(badOffline, "network access in offline mode: "+p.String())
@@ -235,8 +235,8 @@ func c20DecisionTable(c *Check, a *Anchors) {
 	// valid cache without --download returns without network
 	okValid := false
 	for _, p := range pe.Paths {
-		if len(p.Out) == 2 && p.Out[0] == cacheKey+"#0" && !p.HasEvent("fetch", "call") && !p.Asg["field:Reader.offline"] {
-			if d, ok := p.Asg["field:Reader.download"]; ok && !d {
+		if len(p.Out) == 2 && p.Out[0] == cacheKey+"#0" && !p.HasEvent("fetch", "call") && !fieldAsg(p.Asg, "offline") {
+			if d, ok := fieldAsgOK(p.Asg, "download"); ok && !d {
 				okValid = true
 			}
 		}
@@ -545,4 +545,23 @@ func c20CacheKeyFromFullLocation(c *Check, a *Anchors) {
 		}
 	}
 	c.Floor("cache-key-from-full-location", n, 2)
+}
+
+// fieldAsgOK: the assumed value of the reader's setting `name` on a path, whichever struct of the package declares the field
+// (Reader itself or a settings struct embedded in it).
+func fieldAsgOK(asg map[string]bool, name string) (bool, bool) {
+	if v, ok := asg["field:Reader."+name]; ok {
+		return v, true
+	}
+	for k, v := range asg {
+		if strings.HasPrefix(k, "field:") && strings.HasSuffix(k, "."+name) && !strings.Contains(k, "(") {
+			return v, true
+		}
+	}
+	return false, false
+}
+
+func fieldAsg(asg map[string]bool, name string) bool {
+	v, _ := fieldAsgOK(asg, name)
+	return v
 }
